@@ -19,7 +19,7 @@
 pub const KCAP: usize = 64; // longest key
 pub const MCAP: usize = 176; // longest message
 pub const OCAP: usize = 64; // longest output
-pub const SLOTS: usize = 24; // calls per harness
+pub const SLOTS: usize = 40; // calls per harness
 
 /// Algorithm identifiers (domain separation between the uninterpreted functions).
 pub mod alg {
@@ -46,6 +46,11 @@ pub mod alg {
     pub const RSA_KEM: u8 = 21;
     pub const SHA256: u8 = 22;
     pub const P384_DECOMPRESS: u8 = 23;
+    pub const ED25519_VALID: u8 = 24; // key = 32 bytes -> bit 0 of out[0]: "is a valid compressed Edwards point"
+    pub const ED25519_SIG_WF: u8 = 25; // key = 64-byte signature -> bit 0: "is well formed (canonical s, decodable R)"
+    pub const ED25519_SIG_INVALID: u8 = 26; // signature made with a verifying key that does not belong to the signing key
+    pub const P384_VALID: u8 = 27;
+    pub const RSA_MISC: u8 = 28;
 }
 
 #[derive(Clone, Copy)]
@@ -74,12 +79,13 @@ fn fresh<const N: usize>() -> [u8; N] {
 fn fresh<const N: usize>() -> [u8; N] {
     panic!("vmodel-core is a verification model: it has no native implementation")
 }
+/// `kani::assume` for model and spec crates (no-op outside Kani)
 #[cfg(kani)]
-fn assume(c: bool) {
+pub fn assume(c: bool) {
     kani::assume(c)
 }
 #[cfg(not(kani))]
-fn assume(_c: bool) {}
+pub fn assume(_c: bool) {}
 
 fn eq_prefix(a: &[u8], b: &[u8], n: usize) -> bool {
     let mut i = 0;
@@ -157,6 +163,30 @@ pub fn was_output_of(alg: u8, key: &[u8], msg: &[u8], sig: &[u8]) -> bool {
         }
     }
     found
+}
+
+/// Like `was_output_of`, but the stored key only has to *start with* `key_prefix` (e.g. signatures keyed by
+/// public key ‖ signer-private data: the verifier knows only the public key).
+pub fn was_output_of_kp(alg: u8, key_prefix: &[u8], msg: &[u8], sig: &[u8]) -> bool {
+    let (plen, mlen, olen) = (key_prefix.len(), msg.len(), sig.len());
+    let mut found = false;
+    unsafe {
+        let n = TABLE.n;
+        let mut j = 0;
+        while j < n {
+            let e = &TABLE.e[j];
+            if e.alg == alg && e.olen == olen && e.klen >= plen && e.mlen == mlen {
+                found |= eq_prefix(&e.key, key_prefix, plen) && eq_prefix(&e.msg, msg, mlen) && eq_prefix(&e.out, sig, olen);
+            }
+            j += 1;
+        }
+    }
+    found
+}
+
+/// A streaming hash context whose streamed message can be read back by another model.
+pub trait Collect {
+    fn collected(&self) -> &[u8];
 }
 
 /// Ghost view for harnesses: number of uf calls with this algorithm so far.
@@ -237,6 +267,17 @@ pub struct RngLog {
     pub n: usize,
     pub d: [Draw; DRAWS],
 }
+/// Bytes the k-th draw will return, fixed in advance when a harness asked for them with `rng_preview(k)`
+/// (lets a harness compute the specification's output *before* calling the code under test).
+pub static mut RNG_PRE: [(bool, [u8; DRAW_CAP]); DRAWS] = [(false, [0; DRAW_CAP]); DRAWS];
+pub fn rng_preview(k: usize) -> [u8; DRAW_CAP] {
+    unsafe {
+        if !RNG_PRE[k].0 {
+            RNG_PRE[k] = (true, fresh());
+        }
+        RNG_PRE[k].1
+    }
+}
 pub static mut RNG: RngLog = RngLog { n: 0, d: [Draw { len: 0, ok: false, bytes: [0; DRAW_CAP] }; DRAWS] };
 
 /// Assumed contract of the operating-system RNG: each draw either fails, or fills the whole buffer with arbitrary bytes.
@@ -249,7 +290,7 @@ pub fn rng_fill(buf: &mut [u8]) -> bool {
         // failure is nondeterministic only when the harness asked for it: a symbolic Ok/Err merge would make every
         // length downstream of the draw non-constant for CBMC (see DESIGN.md section 3)
         let ok: bool = if RNG_MAY_FAIL { fresh::<1>()[0] & 1 == 1 } else { true };
-        let bytes: [u8; DRAW_CAP] = fresh();
+        let bytes: [u8; DRAW_CAP] = if RNG_PRE[n].0 { RNG_PRE[n].1 } else { fresh() };
         RNG.d[n] = Draw { len: buf.len(), ok, bytes };
         RNG.n = n + 1;
         if ok {
